@@ -314,18 +314,13 @@ def ensure_sig_low_s(sig_: bytes) -> bytes:
     Essentially just use s = N - s if s > N / 2
     """
     parsed = bits.pem.parse_asn1(sig_)
-    # r_val = int.from_bytes(parsed[0][2][0][2], "big")
-    r_len = parsed[0][2][0][1]
+    r_val = int.from_bytes(parsed[0][2][0][2], "big")
     s_val = int.from_bytes(parsed[0][2][1][2], "big")
-    s_len = parsed[0][2][1][1]
     if s_val > bits.ecmath.SECP256K1_N // 2 or s_val < 1:
         # s_val = SECP256K1_N - s_val
         s_val = bits.ecmath.sub_mod_p(0, s_val, p=bits.ecmath.SECP256K1_N)
-        parsed[0][2][1][2] = s_val.to_bytes(32, "big")
-        parsed[0][2][1][1] = 32
-        parsed[0][1] = 32 + r_len + 4
-        encoded = bits.pem.encode_parsed_asn1(parsed[0])
-        return encoded
+        # re-encode so that both integers are minimally DER encoded
+        return der_encode_sig(r_val, s_val)
     return sig_
 
 
